@@ -3,6 +3,7 @@ from .. import balance, cfg, core
 from ..effects import ZERO, vget
 from ..facts import operand_local, operand_place
 from . import c04
+from .. import inline
 
 PROP = "C09"
 
@@ -32,7 +33,8 @@ def rule_unwrap(ctx, rep):
                 elif name in ("into_inner", "try_unwrap"):
                     rep.ok("R-UNWRAP", key + "/no-destructor", cfg=tag)
         # into_inner: DATA is moved to the return place
-        for b in F.method("UniqueArc", "into_inner"):
+        for b0 in F.method("UniqueArc", "into_inner"):
+            b = inline.inlined(F, b0["key"]) or b0  # the move may sit in a private helper shared with Arc::try_unwrap
             moved = False
             for bl in b["blocks"]:
                 for s in bl["stmts"]:
@@ -46,6 +48,16 @@ def rule_unwrap(ctx, rep):
                 pl = o.get("place") if o.get("kind") == "place" else None
                 if pl and pl["p"] and isinstance(pl["p"][-1], dict) and pl["p"][-1].get("adt") == F.inner_path and F.data_field and pl["p"][-1].get("f") == F.data_field[0]:
                     moved = True
+            if not moved:
+                # bitwise move out of the payload field: `ptr::read(addr_of!((*p).data))` (the block is then freed without
+                # running the payload's destructor - R-UNWRAP/no-destructor)
+                B0 = cfg.Body(b)
+                o = B0.origin_local(0)
+                if o.get("kind") == "call" and (o["term"].get("callee") or "") in ("core::ptr::read", "<*const T>::read", "<*mut T>::read", "<core::ptr::non_null::NonNull<T>>::read") and o["term"]["args"]:
+                    o2 = B0.origin(o["term"]["args"][0])
+                    pl = o2["rv"]["place"] if o2.get("kind") == "rvalue" and o2["rv"]["k"] in ("ref", "rawptr") else None
+                    if pl and pl["p"] and isinstance(pl["p"][-1], dict) and pl["p"][-1].get("adt") == F.inner_path and F.data_field and pl["p"][-1].get("f") == F.data_field[0]:
+                        moved = True
             if moved:
                 rep.ok("R-UNWRAP", b["key"] + "/moves-data", cfg=tag)
             else:
